@@ -278,6 +278,49 @@ def run(tier, seed):
                                 root, tgt, "returned" if r2 is None else "raised " + r2), meta)
             if len(rep.samples) < 2 and len(kinds) > 2:
                 rep.samples.append({"kinds": kinds, "edges": sorted(edges), "forms": {"%d->%d" % k: v for k, v in forms.items()}, "hidden": hidden})
+        # memento functions defined in a package's __init__ module: the "same package" of their plain helpers is the package
+        # itself (not its parent)
+        try:
+            base = os.path.join(scratch, "initpk")
+            files = {
+                "shop14/__init__.py": "from twosigma.memento import memento_function\nfrom . import helpers\n\n@memento_function(cluster=%r)\ndef front(x):\n    return helpers.assist(x)\n" % CL,
+                "shop14/helpers.py": "from . import rates\n\ndef assist(x):\n    return rates.rate(x) + 1\n",
+                "shop14/rates.py": "from twosigma.memento import memento_function\n\n@memento_function(cluster=%r)\ndef rate(x):\n    return 5\n" % CL,
+                "corp14/__init__.py": "",
+                "corp14/tools.py": "from . import data\n\ndef tool(x):\n    return data.dat(x)\n",
+                "corp14/data.py": "from twosigma.memento import memento_function\n\n@memento_function(cluster=%r)\ndef dat(x):\n    return 7\n" % CL,
+                "corp14/sub/__init__.py": "from twosigma.memento import memento_function\nfrom .. import tools\n\n@memento_function(cluster=%r)\ndef inner(x):\n    return tools.tool(x)\n" % CL,
+            }
+            for rel, body in files.items():
+                os.makedirs(os.path.dirname(os.path.join(base, rel)), exist_ok=True)
+                with open(os.path.join(base, rel), "w") as f:
+                    f.write(body)
+            sys.path.insert(0, base)
+            importlib.invalidate_caches()
+            shop = importlib.import_module("shop14")
+            sub = importlib.import_module("corp14.sub")
+            t1 = sorted(x.qualified_name_without_version.split(":")[-1] for x in shop.front.dependencies().transitive_memento_fn_dependencies())
+            t2 = sorted(x.qualified_name_without_version.split(":")[-1] for x in sub.inner.dependencies().transitive_memento_fn_dependencies())
+            meta = {"layout": sorted(files)}
+            stats["init_module_cases"] = 2
+            if t1 != ["rate"]:
+                rep.violation("C14:transitive-not-exact:init-module", "a memento function in shop14/__init__.py uses a plain helper of its own package that uses shop14.rates.rate: reported transitive dependencies %r" % (t1,), meta)
+            else:
+                try:
+                    if shop.front(1) != 6:
+                        rep.violation("C14:declared-call-refused:init-module", "front(1) returned a wrong value", meta)
+                except UndeclaredDependencyError:
+                    rep.violation("C14:declared-call-refused:init-module", "a call inside the static closure (through a helper of the package's __init__ module) was refused", meta)
+            if t2 != []:
+                rep.violation("C14:transitive-not-exact:init-module", "a memento function in corp14/sub/__init__.py uses a plain helper of the PARENT package: reported transitive dependencies %r, expected none (the helper is outside its package)" % (t2,), meta)
+            else:
+                try:
+                    sub.inner(1)
+                    rep.violation("C14:hidden-call-not-refused:init-module", "a call outside the static closure (reached through a helper of another package) returned instead of raising the undeclared-dependency error", meta)
+                except UndeclaredDependencyError:
+                    pass
+        except Exception as e:
+            rep.violation("C14:init-module-scenario-raised", "%s: %s" % (type(e).__name__, str(e)[:200]), {})
         try:
             res = C.run_coq_cases("c14", HEADER, terms, "deps_case", shard=600,
                                   case_type="list (nat * sym) * nat * (list nat * list nat * list rule)")
